@@ -135,6 +135,9 @@ def type_harness(core, case):
                "float-start": lambda: reg[slice(r, None)], "float-stop": lambda: reg[slice(None, r)], "str": lambda: reg[slice("1", None)],
                "sec-step": lambda: reg.sec[slice(r, None, 1)], "sec-str": lambda: reg.sec[slice("1", None)], "sec-int-index": lambda: reg.sec[a],
                "ms-float": lambda: reg.ms[slice(r, None)], "ms-step": lambda: reg.ms[slice(a, None, a)], "ms-str": lambda: reg.ms[slice(None, "7")],
+               "ms-float-stop": lambda: reg.ms[slice(None, r)], "ms-int-start-float-stop": lambda: reg.ms[slice(a, r)],
+               "sec-fraction-stop": lambda: reg.sec[slice(None, fractions.Fraction(1, 2))], "sec-decimal-start": lambda: reg.sec[slice(__import__("decimal").Decimal("0.25"), None)],
+               "sec-none-index": lambda: reg.sec[None], "str-stop": lambda: reg[slice(None, "3")],
                }[case]
         try:
             idx()
@@ -151,7 +154,8 @@ def type_harness(core, case):
     return path
 
 
-TYPE_CASES = ["step", "symstep", "int", "float-start", "float-stop", "str", "sec-step", "sec-str", "sec-int-index", "ms-float", "ms-step", "ms-str"]
+TYPE_CASES = ["step", "symstep", "int", "float-start", "float-stop", "str", "sec-step", "sec-str", "sec-int-index", "ms-float", "ms-step", "ms-str",
+              "ms-float-stop", "ms-int-start-float-stop", "sec-fraction-stop", "sec-decimal-start", "sec-none-index", "str-stop"]
 
 
 def cex_now(e, why, syms, meta):
@@ -182,7 +186,10 @@ def replay_fn(c):
         r = a / 1024
         idx = {"step": lambda: reg[a::2], "symstep": lambda: reg[::a], "int": lambda: reg[a], "float-start": lambda: reg[r:],
                "float-stop": lambda: reg[:r], "str": lambda: reg["1":], "sec-step": lambda: reg.sec[r::1], "sec-str": lambda: reg.sec["1":],
-               "sec-int-index": lambda: reg.sec[a], "ms-float": lambda: reg.ms[r:], "ms-step": lambda: reg.ms[a::a], "ms-str": lambda: reg.ms[:"7"]}[c["case"]]
+               "sec-int-index": lambda: reg.sec[a], "ms-float": lambda: reg.ms[r:], "ms-step": lambda: reg.ms[a::a], "ms-str": lambda: reg.ms[:"7"],
+               "ms-float-stop": lambda: reg.ms[:r], "ms-int-start-float-stop": lambda: reg.ms[a:r],
+               "sec-fraction-stop": lambda: reg.sec[:fractions.Fraction(1, 2)], "sec-decimal-start": lambda: reg.sec[__import__("decimal").Decimal("0.25"):],
+               "sec-none-index": lambda: reg.sec[None], "str-stop": lambda: reg[:"3"]}[c["case"]]
         try:
             idx()
             out = "returned a value"
